@@ -25,4 +25,14 @@ theorem saveHistory_replace (igs : List Ignore) (m : Raw C) :
 theorem saveHistory_clearShared_second (ig1 ig2 : Ignore) (m : Raw C) :
     (saveHistory .clearShared [ig1, ig2] m).1 = [applyIgnore ig1 m, applyIgnore ig2 (applyIgnore ig1 m)] := rfl
 
+/-! wireframe export: with the faces ignored no face is written, so every edge is -/
+
+theorem objEdges_wireframe (cfg : Cfg) (ig : Ignore) (m : Raw C) (hf : ig.faces = true) :
+    objEdges cfg (applyIgnore ig m) = if cfg.exportEdges then (if ig.edges then [] else m.edges) else [] := by
+  simp [objEdges, applyIgnore, hf]
+
+theorem medEdges_wireframe (ig : Ignore) (m : Raw C) (hf : ig.faces = true) (hc : ig.cells = true) :
+    medEdges (applyIgnore ig m) = if ig.edges then [] else m.edges := by
+  cases he : ig.edges <;> cases hh : m.hard <;> simp [medEdges, applyIgnore, hf, hc, he, hh]
+
 end Mouette.IO.Tables
